@@ -160,7 +160,18 @@ class ExtMixin:
                 for s, v in self.call_func(st, fr, node, hit[1], a[0].cls, a[0], [], {}):
                     res.append((s, v if isinstance(v, Raised) else self.to_bool_value(v, s, fr)))
                 return res
-            return R(self.to_bool_value(a[0], st, fr))
+            v0 = norm(a[0])
+            if isinstance(v0, Unknown) and v0.ty == "bool":
+                return R(v0)
+            bv = self.to_bool_value(a[0], st, fr)
+            if isinstance(bv, BitV) and isinstance(bv.bits[0], tuple) and bv.bits[0][0] == "m" and node.args and \
+                    (isinstance(v0, (BitV, Lin)) or (isinstance(v0, Sym) and v0.ty == "int")):
+                # bool(x) of a multi-bit unknown: the boolean *is* the comparison x != 0, decided when it is branched on
+                synth = ast.Compare(left=node.args[0], ops=[ast.NotEq()], comparators=[ast.Constant(0)])
+                ast.copy_location(synth, node)
+                ast.fix_missing_locations(synth)
+                return R(Unknown(deps_of(v0), ty="bool", cmp=(synth, (v0, Const(0)), False, fr.fid)))
+            return R(bv)
         if name == "int":
             if not a:
                 return R(Const(0))
@@ -250,6 +261,9 @@ class ExtMixin:
             return R(Sym(("exc", name), "exc", notnone=True))
         if name == "struct.pack":
             return R(self.struct_pack(a, st, fr, node))
+        if name == "struct.unpack_from":
+            off = a[2] if len(a) > 2 else kw.get("offset", Const(0))
+            return R(self.struct_unpack(a, st, fr, node, offset=norm(off)))
         if name == "struct.unpack":
             return R(self.struct_unpack(a, st, fr, node))
         if name == "struct.calcsize" and a and isinstance(a[0], Const):
@@ -399,7 +413,7 @@ class ExtMixin:
                 return Raised("struct.error", node, fr.func, "pack range")
         return Bytes([(("pack", fmt, tuple(vals)), Const(fmt_size(fmt)))], "bytes")
 
-    def struct_unpack(self, a, st, fr, node):
+    def struct_unpack(self, a, st, fr, node, offset=None):
         if len(a) < 2 or not isinstance(a[0], Const) or not isinstance(a[0].v, str):
             return Unknown(why="unpack")
         fmt = a[0].v
@@ -412,12 +426,18 @@ class ExtMixin:
         ok = False
         if ln is not None:
             l = as_lin(norm(ln))
-            if l is not None:
+            if l is not None and offset is None:
                 ok = self.lin_sign(lin_add(l, Lin({}, sz), -1), st) == "==0"
                 if not ok and not l.terms and l.c != sz:
                     return Raised("struct.error", node, fr.func, "unpack size")
-        self.event(st, fr, "unpack", node, (fmt, a[1], ln, ok))
-        cb = self.concrete_bytes(a[1], st)
+            elif l is not None:
+                # unpack_from: the buffer must hold at least offset + size bytes
+                lo_ = as_lin(offset)
+                if lo_ is not None:
+                    room = lin_add(lin_add(l, lo_, -1), Lin({}, sz), -1)      # len - offset - size >= 0
+                    ok = self.lin_sign(room, st) in (">0", ">=0", "==0") and self.lin_sign(lo_, st) in (">0", ">=0", "==0")
+        self.event(st, fr, "unpack", node, (fmt, a[1], ln, ok) if offset is None else (fmt, a[1], ln, ok, offset))
+        cb = self.concrete_bytes(a[1], st) if offset is None else None
         if cb is not None and len(cb) == sz and order in ("", "<", "=", "@") and all(c in "bBhHiIlLqQ" for c in codes):
             # constant folding of a fully known little-endian image (the analyser's own decoder)
             vals, off = [], 0
@@ -436,7 +456,7 @@ class ExtMixin:
             rngs = dict(st.extra.get("symrng", {}))
             rngs[nm] = (lo, hi)
             st.extra["symrng"] = rngs
-            items.append(Sym(nm, "int", rng=(lo, hi), unpack=(fmt, k, a[1])))
+            items.append(Sym(nm, "int", rng=(lo, hi), unpack=(fmt, k, a[1]) if offset is None else (fmt, k, a[1], offset)))
         return Seq(items, "tuple")
 
     # ---------------------------------------------------------------- methods
@@ -502,14 +522,27 @@ class ExtMixin:
         if attr == "decode" and bt in ("bytes", "bytearray", "byteslike", None):
             s2 = st.fork()
             self.budget()
-            return [(st, Unknown(deps_of(base), ty="str")), (s2, Raised("UnicodeError", node, fr.func))]
+            return [(st, Sym(st.fresh_name("decoded"), "str", of=base, deps=frozenset(deps_of(base)), notnone=True)), (s2, Raised("UnicodeError", node, fr.func))]
         if attr == "encode":
             return R(Sym(st.fresh_name("encoded"), "bytes", len=Sym(st.fresh_name("len"), "int", rng=(0, None))))
         if attr in ("format", "join", "replace", "strip", "lower", "upper"):
+            if attr == "replace":
+                self.event(st, fr, "strop", node, (attr, base, tuple(a)))
+                if isinstance(base, Const) and isinstance(base.v, str) and all(isinstance(x, Const) for x in a) and 2 <= len(a) <= 3:
+                    try:
+                        return R(Const(base.v.replace(*[x.v for x in a])))
+                    except Exception:
+                        pass
+                if isinstance(base, Sym) and base.ty == "str":
+                    return R(Sym(st.fresh_name("replaced"), "str", of=base, notnone=True))
             return R(Unknown(ty="str"))
         if attr in ("startswith", "endswith"):
             if isinstance(base, Const) and a and isinstance(a[0], Const):
                 return R(Const(getattr(base.v, attr)(a[0].v)))
+            # one named boolean per (string value, affix): the same question asked twice on a path has one answer
+            who = getattr(base, "name", None) if isinstance(base, Sym) else None
+            if who is not None and a and isinstance(a[0], Const):
+                return R(Sym((attr, who, a[0].v), "bool", of=base, affix=a[0]))
             return R(Unknown(deps_of(base), ty="bool"))
         if attr == "switch_to_output":
             v = kw.get("value", a[0] if a else Const(False))
